@@ -34,7 +34,8 @@ theorem parser_table_matches :
        "for-range: custom mapping over nextParser.ConfigKeyList",
        "fm := flowMessage.GetFlowMessage()",
        "fm.LayerSize = append(fm.LayerSize, uint32(res.Size))",
-       "if !res.NextParser.EncapSkip && res.NextParser.LayerIndex <= nextParser.LayerIndex { parseConfig.Encapsulated = true }",
+       "if !nextParser.EncapSkip { encapIndex = nextParser.LayerIndex }",
+       "if res.NextParser.LayerIndex < encapIndex || (!res.NextParser.EncapSkip && res.NextParser.LayerIndex == encapIndex) { parseConfig.Encapsulated = true }",
        "calls[nextParser.ParserIndex] += 1",
        "callsLayer[nextParser.LayerIndex] += 1",
        "nextParser = res.NextParser",
@@ -89,26 +90,49 @@ theorem icmp_first_only (m : FlowMsg) (d : Bytes) (pc : PC) (h : pc.calls ≠ 0)
     (parseICMP m d pc).msg.icmpType = m.icmpType ∧ (parseICMP m d pc).msg.icmpCode = m.icmpCode := by
   unfold parseICMP; split <;> simp [tooShort, addLayer, h]
 
-/-- which transitions mark the rest of the frame as encapsulated: exactly a next layer that is not
-    EncapSkip and whose layer index is not above the current one — GRE / IP-in-IP / IPv6-in-IP and
-    a second Ethernet header for the frames of the grammar; 802.1Q, MPLS and the IPv6 fragment
-    header never do -/
+/-- the encapsulation flag each layer of a chain of parsers is parsed with (the chain starts at Ethernet,
+    as ParsePacket does) -/
+def chainFlags : Nat → Bool → List Parser → List Bool
+  | _, _, [] => []
+  | _, e, [_] => [e]
+  | idx, e, cur :: nxt :: rest =>
+    let idx' := encapIdx idx cur.encapSkip cur.layerIndex
+    e :: chainFlags idx' (e || encapTrig idx' nxt.encapSkip nxt.layerIndex) (nxt :: rest)
+
+def flagsOf (chain : List Parser) : List Bool := chainFlags Parser.ethernet.layerIndex false chain
+
+/-- which layers are encapsulated, on the chains the frame grammar produces and a few beyond it: plain stacks
+    never are (also with both IPv6 extension headers in either order); everything behind GRE is, including an
+    MPLS stack between GRE and the inner IP header (the defect repaired by the `fix:` commit — the pinned
+    rule compared the inner IP header with the MPLS layer and left it un-encapsulated); the inner header of
+    IP-in-IP is, also behind a fragment header; Geneve / a second Ethernet header are -/
 theorem encap_rule :
-    (∀ cur ∈ [Parser.ipv4, Parser.ipv6, Parser.ipv6route, Parser.ipv6frag],
-      ∀ nxt ∈ [Parser.ipv4, Parser.ipv6], (!nxt.encapSkip && decide (nxt.layerIndex ≤ cur.layerIndex)) = true) ∧
-    (∀ cur ∈ [Parser.gre], ∀ nxt ∈ [Parser.ethernet, Parser.ipv4, Parser.ipv6],
-      (!nxt.encapSkip && decide (nxt.layerIndex ≤ cur.layerIndex)) = true) ∧
-    (∀ cur ∈ allParsers, ∀ nxt ∈ [Parser.dot1q, Parser.mpls, Parser.ipv6frag],
-      (!nxt.encapSkip && decide (nxt.layerIndex ≤ cur.layerIndex)) = false) ∧
-    (∀ cur ∈ [Parser.ethernet, Parser.dot1q, Parser.mpls], ∀ nxt ∈ [Parser.ipv4, Parser.ipv6],
-      (!nxt.encapSkip && decide (nxt.layerIndex ≤ cur.layerIndex)) = false) ∧
-    (∀ cur ∈ [Parser.ipv4, Parser.ipv6],
-      ∀ nxt ∈ [Parser.tcp, Parser.udp, Parser.icmp, Parser.icmpv6, Parser.gre, Parser.ipv6route],
-      (!nxt.encapSkip && decide (nxt.layerIndex ≤ cur.layerIndex)) = false) ∧
-    (∀ cur ∈ [Parser.ipv6route, Parser.ipv6frag],
-      ∀ nxt ∈ [Parser.tcp, Parser.udp, Parser.icmp, Parser.icmpv6, Parser.gre],
-      (!nxt.encapSkip && decide (nxt.layerIndex ≤ cur.layerIndex)) = false) := by
+    flagsOf [.ethernet, .dot1q, .dot1q, .mpls, .ipv4, .tcp] = [false, false, false, false, false, false] ∧
+    flagsOf [.ethernet, .ipv6, .ipv6frag, .ipv6route, .tcp] = [false, false, false, false, false] ∧
+    flagsOf [.ethernet, .ipv6, .ipv6route, .ipv6frag, .udp] = [false, false, false, false, false] ∧
+    flagsOf [.ethernet, .ipv4, .gre, .ipv4, .tcp] = [false, false, false, true, true] ∧
+    flagsOf [.ethernet, .ipv4, .gre, .mpls, .ipv4, .tcp] = [false, false, false, true, true, true] ∧
+    flagsOf [.ethernet, .mpls, .ipv6, .gre, .mpls, .ipv4, .udp] = [false, false, false, false, true, true, true] ∧
+    flagsOf [.ethernet, .ipv4, .gre, .ethernet, .dot1q, .ipv6, .icmpv6] = [false, false, false, true, true, true, true] ∧
+    flagsOf [.ethernet, .ipv4, .ipv6, .tcp] = [false, false, true, true] ∧
+    flagsOf [.ethernet, .ipv6, .ipv6frag, .ipv4, .tcp] = [false, false, false, true, true] ∧
+    flagsOf [.ethernet, .ipv6, .ipv6route, .ipv6, .tcp] = [false, false, false, true, true] ∧
+    flagsOf [.ethernet, .ipv4, .udp, .geneve, .ethernet, .ipv4] = [false, false, false, true, true, true] := by
   decide
+
+/-- the flag is monotone along a chain: once a layer is encapsulated, all later ones are -/
+theorem encap_monotone (idx : Nat) (chain : List Parser) : ∀ b ∈ chainFlags idx true chain, b = true := by
+  induction chain generalizing idx with
+  | nil => intro b hb; cases hb
+  | cons cur rest ih =>
+    cases rest with
+    | nil => intro b hb; simpa [chainFlags] using hb
+    | cons nxt rest' =>
+      intro b hb
+      simp only [chainFlags, Bool.true_or, List.mem_cons] at hb
+      rcases hb with h | h
+      · exact h
+      · exact ih _ b h
 
 /-- layer sizes of the fixed-size headers; TCP reports its data offset -/
 theorem layer_sizes (m : FlowMsg) (d : Bytes) (pc : PC) :
